@@ -125,3 +125,8 @@ func IsNumericLooking(s string) bool {
 	c := s[0]
 	return c >= '0' && c <= '9' || c == '-' || c == '+' || c == '.'
 }
+
+func IntGrid() []int64    { return intGrid }
+func RealGrid() []float64 { return realGrid }
+func TextGrid() []string  { return textGrid }
+func BlobGrid() [][]byte  { return blobGrid }
